@@ -174,6 +174,7 @@ def _run_unary_sync(
                 _logger.debug("Dispatch hook start failed", exc_info=True)
                 hook = None
         _hook_exc: BaseException | None = None
+        preflight_overshoot: RuntimeError | None = None
         try:
             external_bytes_written = 0
             with new_ipc_stream(resp_buf, schema) as writer:
@@ -198,10 +199,9 @@ def _run_unary_sync(
                             f"({predicted_external} > {app._max_externalized_response_bytes}) "
                             f"for method {method_name!r}"
                         )
-                        _hook_exc = overshoot
+                        _hook_exc = preflight_overshoot = overshoot
                         status = "error"
                         error_type = _log_method_error(protocol_name, method_name, server_id, overshoot)
-                        _write_error_batch(writer, schema, overshoot, server_id=server_id)
                         http_status = HTTPStatus.INTERNAL_SERVER_ERROR
                     else:
                         external_bytes_written = _write_result_batch(
@@ -226,6 +226,15 @@ def _run_unary_sync(
                     error_type = _log_method_error(protocol_name, method_name, server_id, exc)
                     _write_error_batch(writer, schema, exc, server_id=server_id)
                     http_status = HTTPStatus.INTERNAL_SERVER_ERROR
+
+            if preflight_overshoot is not None:
+                # Like the wire overshoot below: the reply is the EXCEPTION
+                # batch alone.  Left behind the client logs already in the
+                # body it bypassed max_response_bytes, which is only checked
+                # for replies that are still "ok".
+                resp_buf = BytesIO()
+                with new_ipc_stream(resp_buf, schema) as err_writer:
+                    _write_error_batch(err_writer, schema, preflight_overshoot, server_id=server_id)
 
             # Wire body cap is checked post-flush — no upload cost was
             # incurred for the body itself.  External cap was pre-flighted
